@@ -26,7 +26,7 @@ MERGE_FILES = ["ZapProofs/Props/C05.lean", "ZapProofs/Props/C06.lean", "ZapProof
                "ZapProofs/MergeLemmas.lean", "ZapProofs/DictLemmas.lean"]
 
 PROPS = {
-    "C01": _p([{"gen": "C01"}, {"gen": "ENC", "seed_offset": 7}],
+    "C01": _p([{"gen": "C01"}, {"gen": "ENC", "seed_offset": 7}, {"gen": "C01", "vectors": True, "seed_offset": 13}],
               ["ZapProofs.Props.C01Build", "ZapProofs.Props.C07"],
               ["Zap.C01_fieldTable", "Zap.C01_entries_all", "Zap.C01_termsSorted", "Zap.C01_empty", "Zap.C07_run"],
               BUILD_FILES + POST_FILES),
@@ -36,7 +36,7 @@ PROPS = {
     "C03": _p([{"gen": "C03"}], ["ZapProofs.Props.C03"],
               ["Zap.C03_fresh_visit", "Zap.C03_visit_any_order", "Zap.C03_visit_sequence", "Zap.C03_reader_invariant",
                "Zap.C03_dvFieldNames", "Zap.C03_content", "Zap.C03_visit_built"], DV_FILES + STORED_FILES),
-    "C04": _p([{"gen": "C04"}], [], []),
+    "C04": _p([{"gen": "C04"}, {"gen": "C04", "vectors": True, "seed_offset": 13}], [], []),
     "C05": _p([{"gen": "C05"}], ["ZapProofs.Props.C05"],
               ["Zap.remapSeg_spec", "Zap.remapAll_spec", "Zap.newDocCount_eq", "Zap.C05_consecutive", "Zap.C05_bijection",
                "Zap.C05_count", "Zap.C05_maps", "Zap.C05_zero", "Zap.C05_stored", "Zap.mergedFieldNames_spec",
@@ -47,13 +47,17 @@ PROPS = {
               ["Zap.C07_run", "Zap.C07_count", "Zap.C07_live", "Zap.C07_replace"], POST_FILES),
     "C08": _p([{"gen": "C08"}], ["ZapProofs.Props.C08"],
               ["Zap.C08_dict", "Zap.C08_stale_1hit_counterexample", "Zap.C08_merge_writes_wf"], MERGE_FILES),
-    "C10": _p([{"gen": "C10"}], [], []),
+    "C10": _p([{"gen": "C10"}, {"gen": "C10", "vectors": True, "seed_offset": 13}], [], []),
     "C11": _p([{"gen": "C11"}], [], []),
-    "C12": _p([{"gen": "C12"}], [], []),
+    "C12": _p([{"gen": "C12"}, {"gen": "C12", "vectors": True, "seed_offset": 13}], [], []),
     "C13": _p([{"gen": "C13"}], [], []),
     "C17": _p([{"gen": "C17"}], [], []),
     "C18": _p([{"gen": "C18"}], [], []),
     "C20": _p([{"gen": "C20"}], [], []),
+    "C14": _p([{"gen": "C14", "vectors": True}], [], [], replay_vectors=True),
+    "C15": _p([{"gen": "C15", "vectors": True}], [], [], replay_vectors=True),
+    "C16": _p([{"gen": "C16", "vectors": True}], [], [], replay_vectors=True),
+    "C19": _p([{"gen": "C19", "vectors": True}], [], [], replay_vectors=True),
 }
 
 
